@@ -33,6 +33,7 @@ TEmit == /\ IsEvent("Emit") /\ emittedAfterFail' = (emittedAfterFail \/ (failed 
 TEnd == /\ IsEvent("OpEnd") /\ inOp /\ inOp' = FALSE
         /\ Chk((failed \/ Ev.entfail = 1) => (Ev.rc # 1 /\ ~emittedAfterFail))                       \* fail closed
         /\ Chk((Ev.rc = 1 /\ Ev.persist = 0) => Ev.draws >= 1)                                       \* takes its randomness from the source (a persistent context may have drawn it earlier)
+        /\ Chk((Ev.rc = 1 /\ Ev.nonceop = 1) => Ev.nsrc >= 1)                                        \* the secret scalar behind the result is one of the values drawn (and in range)
         /\ IF Ev.rc = 1 /\ Ev.failat = 0
            THEN /\ Chk(\A s \in seen : (s[1] = Ev.op /\ s[3] = Ev.rep) => ((s[2] = stream) <=> (s[4] = Ev.eph)))   \* same stream <=> same value
                 /\ seen' = seen \cup {<<Ev.op, stream, Ev.rep, Ev.eph>>}
